@@ -242,6 +242,50 @@ theorem testsTrueFor_iff (n : Nat) (t : String) (b : Action) (p : Option Action)
         (iterPost n p (run n (.doAct b) (iterSt n b p i st)).st).err = none) ∧
       evalBool t (iterSt n b p k st).data = some false := Iff.rfl
 
+/-! ### the closed form of forEach
+
+  `itemRes n v b it st` = performWithItem for the item `it` (resolved against `st`'s data) with fuel `n`;
+  `itemsSt` / `itemsTrace` / `ItemsOk` thread the state through the items (YtkProofs/PipelineLoop.lean;
+  `items_unfold`). -/
+
+theorem items_unfold (n : Nat) (v : String) (b : Action) (it : ItemE) (its : List ItemE) (st : St) :
+    itemRes n v b it st = run n (.item v b (it.resolve st.data)) st ∧
+    itemsSt n v b [] st = st ∧ itemsSt n v b (it :: its) st = itemsSt n v b its (itemRes n v b it st).st ∧
+    itemsTrace n v b [] st = [] ∧
+    itemsTrace n v b (it :: its) st = (itemRes n v b it st).tr ++ itemsTrace n v b its (itemRes n v b it st).st ∧
+    (ItemsOk n v b [] st ↔ True) ∧
+    (ItemsOk n v b (it :: its) st ↔ (itemRes n v b it st).err = none ∧ ItemsOk n v b its (itemRes n v b it st).st) :=
+  ⟨rfl, rfl, rfl, rfl, rfl, Iff.rfl, Iff.rfl⟩
+
+/-- every iteration ends without error: the trace is the concatenation of the iterations' traces in item
+    order, each iteration starting from the data the previous one left (fuel `m ≥ n + #items + 1`) -/
+theorem forEach_trace_closed (n : Nat) (v : String) (b : Action) (its : List ItemE) (st : St) (m : Nat)
+    (h : ItemsOk n v b its st) (hm : n + its.length + 1 ≤ m) :
+    run m (.items v b its) st = ⟨itemsTrace n v b its st, itemsSt n v b its st, none⟩ :=
+  items_closed n v b its st m h hm
+
+/-- the iteration of item number `pre.length` fails with `e`: trace = the traces of the items up to and
+    including the failing one, the result is the failing iteration's; no later item runs -/
+theorem forEach_trace_failing (n : Nat) (v : String) (b : Action) (pre : List ItemE) (it : ItemE)
+    (post : List ItemE) (e : Err) (he : e ≠ .fuel) (st : St) (m : Nat) (h : ItemsOk n v b pre st)
+    (hf : (itemRes n v b it (itemsSt n v b pre st)).err = some e) (hm : n + pre.length + 1 ≤ m) :
+    run m (.items v b (pre ++ it :: post)) st =
+      ⟨itemsTrace n v b pre st ++ (itemRes n v b it (itemsSt n v b pre st)).tr,
+        (itemRes n v b it (itemsSt n v b pre st)).st, some e⟩ :=
+  items_failing n v b it post e he pre st m h hf hm
+
+/-- the operation as the executor runs it -/
+theorem forEach_op_trace_closed (n : Nat) (q : Option VoR) (its : Option (List VoR)) (v : Option String)
+    (b : Action) (st : St) (m : Nat)
+    (h : ItemsOk n (v.getD "forEach") b (itemsOf q its st.data) st)
+    (hm : n + (itemsOf q its st.data).length + 1 ≤ m) :
+    run (m + 1) (.op (.forEach q its v b)) st =
+      wrap ("forEach:" ++ v.getD "forEach")
+        ⟨itemsTrace n (v.getD "forEach") b (itemsOf q its st.data) st,
+          itemsSt n (v.getD "forEach") b (itemsOf q its st.data) st, none⟩ := by
+  simp only [run, Op.label]
+  rw [items_closed n _ b _ st m h hm]
+
 /-! ### call / define -/
 
 /-- calling an undefined name is an error; nothing runs and nothing changes -/
@@ -418,6 +462,18 @@ theorem nonvacuous_forEach :
       (.mk "b" 0 none [.log "item={{ .i }}"] []))) ⟨exData, []⟩
     logsOf r.tr = ["item=a", "item=2"] ∧ r.err = none ∧ r.st.data = exData := by
   decide
+
+/-- the hypotheses of `forEach_trace_closed` hold for that loop (fuel 8 per iteration) -/
+theorem nonvacuous_forEach_closed :
+    ItemsOk 8 "i" (.mk "b" 0 none [.log "item={{ .i }}"] [])
+      (itemsOf (some ⟨false, "", "xs"⟩) none exData) ⟨exData, []⟩ := by
+  have e : itemsOf (some ⟨false, "", "xs"⟩) none exData =
+      [.node (.leaf ⟨"string", "a"⟩), .node (.leaf ⟨"int", "2"⟩)] := by
+    have hl : lookup exData (VoR.resolve ⟨false, "", "xs"⟩ exData) =
+        some (.list [.leaf ⟨"string", "a"⟩, .leaf ⟨"int", "2"⟩]) := by decide +kernel
+    simp only [itemsOf, hl, List.map]
+  rw [e]
+  exact ⟨by decide +kernel, by decide +kernel, trivial⟩
 
 /-- failing position: the abort (declared after log) fires in the first iteration; the variable is gone -/
 theorem nonvacuous_forEach_failure :
